@@ -1496,7 +1496,7 @@ def judge(ctx, cases, results, ref_rejected, cc_fail, callees):
         if r and not isinstance(r, tuple) and "skip" not in r and r.get("measured") and (nsamp < 2 or r["static"] or c["ctx"] == "alloca"):
             nsamp += 1
             ctx.sample({"case": c["id"], "source": c["build"]("0")[0], "model": {"states": r["states"], "transitions": r["transitions"],
-                        "anomalies": r["static"], "unmodelled": r["unmodelled"], "predicted_x87_per_call": r["pred_x87"]},
+                        "anomalies": r["static"], "unmodelled": r["unmodelled"], "predicted_x87_per_call": r["pred_x87"] if r["pred_ok"] else "not single-valued"},
                         "machine": {"anomalies": r["dynamic"], "measured": r["measured"]}})
     ctx.assume("gcc -O0 is the value reference; operands are chosen so that no case has undefined behaviour (read-only divisors "
                "and shift counts, one lvalue object per composite node, bounded magnitudes)")
